@@ -77,8 +77,16 @@ func (r RawDeltaSeconds) Value() (dur time.Duration, valid bool) {
 // parseDeltaSeconds parses a non-negative number of seconds, capping values
 // too large to represent instead of letting them wrap around.
 func parseDeltaSeconds(s string) (dur time.Duration, valid bool) {
-	if len(s) == 0 || s[0] == '-' || s[0] == '+' {
-		return // delta-seconds = 1*DIGIT: no sign
+	if len(s) == 0 {
+		return
+	}
+	// delta-seconds = 1*DIGIT: no sign, nothing but digits. (ParseInt reports
+	// "out of range" at the digit that overflows and never looks at the rest:
+	// "99999999999999999999x" must not count as a very large number.)
+	for i := 0; i < len(s); i++ {
+		if s[i] < '0' || s[i] > '9' {
+			return
+		}
 	}
 	seconds, err := strconv.ParseInt(s, 10, 64)
 	switch {
